@@ -799,6 +799,16 @@ def _norm1(e, ctx):
             return ('sub', ('sub', b[1][1], b[2][0]), e[2])     # D.get(k)[i] == D[k][i] (subscripting implies presence)
         if b[0] == 'item' and e[2][0] == 'const' and isinstance(e[2][1], int) and not isinstance(e[2][1], bool) and e[2][1] >= 0:
             return ('item', b[1], tuple(b[2]) + (e[2][1],))      # component k of a loop item: the path of a tuple-unpacking target
+        # element K of a list comprehension over range(n): [f(v) for v in range(n)][K] is f(K) (f(n - 1) for K == -1)
+        if b[0] == 'gen' and b[1] == 'list' and len(b[3]) == 1 and not b[3][0][2] and e[2][0] != 'slice':
+            tgt_, it_, _ = b[3][0]
+            if tgt_[0] == 'bv' and it_[0] == 'call' and it_[1] == ('name', 'range') and not it_[3] and \
+                    (len(it_[2]) == 1 or (len(it_[2]) == 2 and it_[2][0] == ('const', 0))):
+                K = e[2]
+                if K == ('const', -1) or K == ('un', '-', ('const', 1)):
+                    K = ('bin', '-', it_[2][-1], ('const', 1))
+                if K[0] in ('idx', 'lin', 'name', 'bin') or (K[0] == 'const' and isinstance(K[1], int) and not isinstance(K[1], bool) and K[1] >= 0):
+                    return subst(b[2], lambda x: K if x == tgt_ else None)
         # a slice bound chosen at generation time is a choice between two slices; the full slice of a value is the value
         if e[2][0] == 'slice':
             lo_, hi_, st_ = e[2][1], e[2][2], e[2][3]
